@@ -2,7 +2,9 @@
 
 MC      MC_Admission: all 8192 (QR, opcode, qd, an, ns, ar) headers x decodes x {11,12} octets: Policy total,
         Outcome a function with exactly one disposition, the statement's clauses; all 64 pattern subsets x 8 names
-        x {A, DS}: RouteSet invariants; the exactly-once counter machine (3 messages of the 6 disposition classes).
+        x {A, DS}: RouteSet invariants; the exactly-once counter machine (3 messages of the 6 disposition classes);
+        PhaseIrrelevant: OutcomeAt(phase, ...) -- the lifecycle phase of the server when the read that carries the
+        message completes (Admission!Phases: "serving", "stopping") is no exception to any clause.
 GEN     Gen_Admission "pkt"/"short": header x body in {none, full, question cut at each octet, garbage, question only,
         full cut} with the outcome for both values of "decodes" -> `admission replay`: every packet injected into a real
         dns.Server over an in-memory net.PacketConn, an in-memory TCP listener and (a sample) a real UDP loopback socket;
@@ -10,10 +12,18 @@ GEN     Gen_Admission "pkt"/"short": header x body in {none, full, question cut 
         Gen_Admission "route": 64 pattern subsets x 21 names (+ no question; DS names up to 3 labels below the closest
         pattern) x {A, DS, NS} x request flavours -> the life of a ServeMux: a request while nothing was ever registered,
         the registrations, the request, the removals, a request on the emptied mux; every 5th also through a real server.
+        Gen_Admission "phase": every header the policy accepts x every body, a shard of the other headers x bodies
+        {none, full, garbage}, the 12 short prefixes, each in phase "stopping" with the outcome computed by OutcomeAt ->
+        one server life per message on pc, tcp (and a sample on the real UDP socket): the server's reader is wrapped
+        through Server.DecorateReader; when the read that carries the message has completed the wrapper holds it back,
+        the harness calls Shutdown and waits (hook shutdown.unlock, observation only) until started is false, the
+        readers are kicked and srv.lock is free, then the read returns -- successfully, with the message.  Forced by
+        hand-offs, nothing depends on timing.  Finding keys server-<tr>/stopping/<clause>.
         Every call the harness waits for runs under a watchdog: a call that does not return within 45 s is the verdict
         `.../hang:<call>` (the harness prints its summary and ends), never a stuck run.
 TV      `admission record pkt`: random / mutated queries through the three transports -> Trace_Admission (trichotomy, policy
-        recomputed from the header, LibReply, exactly-once totals).  `admission record mux`: 8 goroutines doing
+        recomputed from the header, LibReply, exactly-once totals); every fifth message in phase "stopping" (field
+        `phase`, judged by OutcomeAt; keys server-<tr>/stopping/trace:<clause>).  `admission record mux`: 8 goroutines doing
         Handle/HandleRemove/ServeDNS with call/return sequence numbers -> Trace_Admission (each dispatch explained by a
         pattern set possible between start and end); the same recorder runs in a -race build, a race report in
         miekg/dns code is a violation.
@@ -26,6 +36,12 @@ Mutants (checks/mutants/C14), all caught by GEN replay (stage in brackets):
   match-not-label-boundary.diff  suffix walk octet by octet      [route: mux/plain-wrong-handler / dispatched-without-match]
   ds-special-removed.diff     DS treated like any type           [route: mux/ds-apex-wrong-handler]
   short-udp-not-reported.diff no MsgInvalidFunc on < 12 octets   [pkt: server-pc/ and server-udp/invalid-callback-missing:short]
+  serveudp-recheck-after-read.diff (= seeded C14-16) serveUDP re-checks isStarted() after every read, also a successful one: a datagram
+                              whose read completes while Shutdown is in progress is dropped silently
+                              [phase: server-pc|udp/stopping/handler-not-invoked:accept, .../invalid-callback-missing:short|undecodable,
+                               .../reply-missing:formerr|notimp; TV pkt: server-pc|udp/stopping/trace:handler-count:accept ...]
+  servetcpconn-recheck-after-read.diff  the same in serveTCPConn behind ReadTCP
+                              [phase: server-tcp/stopping/handler-not-invoked:accept ...; TV pkt: server-tcp/stopping/trace:...]
 """
 import os, json, re
 import vp
@@ -81,7 +97,8 @@ def judge_trace(ctx, path):
     def keyfn(e):
         c = cls.get(idx[id(e)], "rejected")
         if e.get("ev") == "pkt":
-            return "server-%s/trace:%s" % (e.get("tr"), c)
+            ph = e.get("phase") or "serving"
+            return "server-%s/%strace:%s" % (e.get("tr"), "" if ph == "serving" else ph + "/", c)
         if e.get("ev") == "totals":
             return "server/trace:exactly-once-totals"
         return "mux/" + c
@@ -113,6 +130,7 @@ def run(ctx):
         vp.parallel([
             lambda: gen_replay(ctx, binp, "pkt", 16, [ctx.seed % 16]),
             lambda: gen_replay(ctx, binp, "short", 1, [0]),
+            lambda: gen_replay(ctx, binp, "phase", 64, [ctx.seed % 64]),
             lambda: gen_replay(ctx, binp, "route", 1, [0]),
             lambda: tv(ctx, binp, "pkt", 1500, 2),
             lambda: tv(ctx, binp, "mux", 25, 1),
@@ -123,6 +141,7 @@ def run(ctx):
         vp.parallel([
             lambda: gen_replay(ctx, binp, "pkt", 4, range(4)),
             lambda: gen_replay(ctx, binp, "short", 1, [0]),
+            lambda: gen_replay(ctx, binp, "phase", 4, range(4)),
             lambda: gen_replay(ctx, binp, "route", 1, [0]),
             lambda: tv(ctx, binp, "pkt", 10000, 8),
             lambda: tv(ctx, binp, "mux", 250, 6),
